@@ -685,9 +685,15 @@ func ruleOverlayKey(c *Ctx) {
 			if !ok || bo.Op != token.EQL || !truth {
 				return
 			}
-			for _, o := range []ssa.Value{bo.X, bo.Y} {
+			for i, o := range []ssa.Value{bo.X, bo.Y} {
+				other := []ssa.Value{bo.Y, bo.X}[i]
 				if ld, ok := o.(*ssa.UnOp); ok {
-					if fa2, ok := ld.X.(*ssa.FieldAddr); ok {
+					// the key fields of the very entry whose codec is returned,
+					// compared with what the caller asked for
+					if fa2, ok := ld.X.(*ssa.FieldAddr); ok && fa2.X == fa.X {
+						if _, isParam := other.(*ssa.Parameter); !isParam {
+							continue
+						}
 						switch fieldName(fa2) {
 						case "typ":
 							typOK = true
